@@ -1,13 +1,16 @@
 from drv_handler import HandlerSuite, InvalidationSuite, FeedSuite, CrashFeedSuite
+from drv_node import NodeSuite
 
 
 class Prop:
     ID = 'C06'
     GEN = ['enums', 'node']
-    MODEL_TARGETS = ['model/FailureHandler.vo']
+    MODEL_TARGETS = ['model/FailureHandler.vo', 'model/Node.vo', 'model/NodeSpec.vo']
     TARGETS = ['props/C06.vo']
     PROPS_FILE = 'props/C06.v'
-    SUITES = [HandlerSuite(), InvalidationSuite(), FeedSuite(), CrashFeedSuite()]
+    SUITES = [HandlerSuite(), InvalidationSuite(), FeedSuite(), CrashFeedSuite(),
+              NodeSuite(evals={'mismatches': 'mismatches', 'spec_violations': 'spec_violations_c06n'},
+                        quick=(500, 60), thorough=(8000, 300))]
     RULE = ('failurehandler: random sequences (<= 30 quick / <= 120 thorough operations) of add_job / add_default_job / '
             'trigger_jobs / abort on the real RunningFailureHandler over 1-3 real applications x 1-5 real processes '
             'with mixed running failure strategies and start sequences (bursts of default jobs = an instance lost, '
